@@ -42,8 +42,8 @@ ARMED = {
    text="Decides: one 64-bit Virtual signal per declaration in order; evaluated after set_outputs with this call's answer; swap_vars before and after on every evaluating path with only iterator plumbing in between and a shared context reference; alt_vars only ever swapped; evaluation error becomes the row's error item; declaration expressions are parsed with the variable set emptied and restored.",
    note=STD_NOTE, ref="5 C14"),
  "C15": dict(technique="order-leak rule over every hash-container iteration site (must-pass-through sort / order-free consumer / error text / commuting loop), inventories of statics / thread-locals / ambient inputs, Freeze and ownership type facts, guard and term rules for the static iterator",
-   text="Decides: no hash order reaches a result (each iteration site classified and its class condition checked); no global or interior-mutable state, only getrandom as ambient input; TestCase is Freeze and borrowed immutably, run state owned by the iterator; try_iter_static errs exactly when outputs are read; the static iterator is a dynamic iterator whose rows are mapped field by field; the driver's answers flow only into the outputs map, the output values and the layout tests.",
-   note=STD_NOTE, ref="5 C15"),
+   text="Decides: no hash order reaches a result (each iteration site classified and its class condition checked); no global or interior-mutable state, only getrandom as ambient input; TestCase is Freeze and borrowed immutably, run state owned by the iterator; try_iter_static errs exactly when outputs are read; the static iterator is a dynamic iterator whose rows are mapped field by field; the driver's answers flow only into the outputs map, the output values and the layout tests; the parser's scope (which decides what counts as an output read) follows the let/loop/repeat/declare scoping rules and discards names bound in a body the interpreter may skip. The last rule reports one known finding on the current tree (F18: while bodies, DESIGN.md 12.1), printed as KNOWN-FINDING.",
+   note=STD_NOTE + " Open finding F18 is listed in known_findings.json.", ref="5 C15"),
  "C16": dict(technique="panic inventory + discharge, constant-table rule (element names x downstream literals, attribute keys and defaults), pipeline order/verbatim rules, guard tables of the bidirectional rule, path tables of load_test / load_test_by_name",
    text="Decides panic-freedom of the loading closure, the element -> signal/test mapping with its constants and defaults, document order and verbatim source, that a name is treated as bidirectional only when no pin has the full name and the stripped name is an Input pin (default kept), and the load_test / load_test_by_name tables. That the XML walk selects the intended nodes in every document, and behaviour under arbitrary corruption beyond panic-freedom, are not applicable to static analysis (roxmltree's run-time interpretation).",
    note=STD_NOTE + " Library assumption: roxmltree text positions are 1-based and within the text.", ref="5 C16"),
